@@ -928,13 +928,14 @@ impl<'env> Executor<'env> {
 
             let (new_instructions, new_blocks) = ok!(tmpl.instructions_and_blocks());
             ok!(state.ctx.incr_depth(INCLUDE_RECURSION_COST));
-            let current_block = state.current_block;
             #[cfg(feature = "macros")]
             let old_closure = state.ctx.take_closure();
+            // the included template brings its own blocks: its top level is
+            // not inside any block of the including template.
             let rv = state.with_execution_state(
                 new_instructions,
                 tmpl.initial_auto_escape(),
-                current_block,
+                None,
                 BlockState::Replace(prepare_blocks(new_blocks)),
                 |state| Self::eval_state(state, out),
             );
